@@ -480,3 +480,65 @@ def calls_family(seed, quick):
                 nm = 'indirect_%s_%s_%s' % ('imptab' if tabimp else 'deftab', offkind, '_'.join(''.join(str(x) for x in s) for s in segs))
                 out.append((nm, m, script, {'tab_slots': 6, 'max_host_calls': 4}))
     return out
+
+
+# ====================================================================== C05 linear memory
+def memory_family(seed, quick):
+    out = []
+    VT = {'i32': I32, 'i64': I64, 'f32': F32, 'f64': F64}
+    offsets = [0, 1, 13] if quick else [0, 1, 2, 13, 29, 55]
+    mems = [(1, 2)]
+    datas = [Data(('i32.const', 3), bytes([0x81, 0x7F, 0xFF, 0x00, 0x80, 0x01, 0xFE, 0x55, 0xAA]))]
+    for k, op in enumerate(LOADS):
+        vt = VT[op[:3]]
+        for oi, off in enumerate(offsets):
+            if quick and (k + oi) % 3 != 0 and oi != 0:
+                continue
+            for align in sorted(set([0, natural_align_of(op)])):
+                if quick and align != 0 and oi != 0:
+                    continue
+                f = Func([I32], [vt], [], [('local.get', 0), (op, align, off)])
+                m = Module(funcs=[f], mems=mems, datas=datas, exports=[('f', 'func', 0)])
+                out.append(('load_%s_o%d_a%d' % (op.replace('.', '_'), off, align), m, [{'call': 'f'}], {'sym_window': 12}))
+    for k, op in enumerate(STORES):
+        vt = VT[op[:3]]
+        for oi, off in enumerate(offsets):
+            if quick and (k + oi) % 3 != 0 and oi != 0:
+                continue
+            f = Func([I32, vt], [], [], [('local.get', 0), ('local.get', 1), (op, 0, off)])
+            g = Func([I32], [I64], [], [('local.get', 0), ('i64.load', 0, 0)])
+            m = Module(funcs=[f, g], mems=mems, datas=datas, exports=[('f', 'func', 0), ('g', 'func', 1)])
+            out.append(('store_%s_o%d' % (op.replace('.', '_'), off), m, [{'call': 'f'}, {'call': 'g'}], {'sym_window': 0}))
+    # size / grow sequences (state carried across calls); declared max 3, and without declared max
+    for mx in (3, None):
+        grow = Func([I32], [I32], [], [('local.get', 0), ('memory.grow',)])
+        size = Func([], [I32], [], [('memory.size',)])
+        st = Func([I32, I64], [], [], [('local.get', 0), ('local.get', 1), ('i64.store', 0, 0)])
+        ld = Func([I32], [I64], [], [('local.get', 0), ('i64.load', 0, 0)])
+        m = Module(funcs=[grow, size, st, ld], mems=[(1, mx)], datas=datas,
+                   exports=[('grow', 'func', 0), ('size', 'func', 1), ('st', 'func', 2), ('ld', 'func', 3)])
+        for si, script in enumerate([[{'call': 'st'}, {'call': 'grow'}, {'call': 'size'}, {'call': 'ld'}],
+                                      [{'call': 'grow'}, {'call': 'grow'}, {'call': 'size'}],
+                                      [{'call': 'grow'}, {'call': 'st'}, {'call': 'ld'}],
+                                      [{'call': 'size'}, {'call': 'grow', 'args': {0: 0}}, {'call': 'grow', 'args': {0: 0xFFFFFFFF}}, {'call': 'size'}]]):
+            out.append(('grow_seq%d_max%s' % (si, mx), m, script, {'ref_pages': 3}))
+    # bulk operations
+    fill = Func([I32, I32, I32], [], [], [('local.get', 0), ('local.get', 1), ('local.get', 2), ('memory.fill',)])
+    copy = Func([I32, I32, I32], [], [], [('local.get', 0), ('local.get', 1), ('local.get', 2), ('memory.copy',)])
+    init = Func([I32, I32, I32], [], [], [('local.get', 0), ('local.get', 1), ('local.get', 2), ('memory.init', 1)])
+    ld = Func([I32], [I64], [], [('local.get', 0), ('i64.load', 0, 0)])
+    m = Module(funcs=[fill, copy, init, ld], mems=mems, datas=datas + [Data(None, bytes([9, 8, 7, 6, 5]), passive=True)], datacount=True,
+               exports=[('fill', 'func', 0), ('copy', 'func', 1), ('init', 'func', 2), ('ld', 'func', 3)])
+    # the byte count is fixed per query (CBMC's memmove/memset models are expensive for symbolic lengths);
+    # destination, source and fill value stay symbolic, so overlap in both directions is covered for each length
+    for n in ([0, 1, 3, 6] if quick else range(0, 7)):
+        out.append(('bulk_fill_n%d' % n, m, [{'call': 'fill', 'args': {2: n}}, {'call': 'ld'}], {'sym_window': 8}))
+        out.append(('bulk_copy_n%d' % n, m, [{'call': 'copy', 'args': {2: n}}, {'call': 'ld'}], {'sym_window': 8}))
+    for n in ([0, 2, 5] if quick else range(0, 6)):
+        out.append(('bulk_init_n%d' % n, m, [{'call': 'init', 'args': {2: n}}, {'call': 'ld'}], {'sym_window': 0}))
+    out.append(('bulk_seq', m, [{'call': 'fill', 'args': {2: 3}}, {'call': 'copy', 'args': {2: 4}}, {'call': 'init', 'args': {2: 2}}], {'sym_window': 4}))
+    return out
+
+
+def natural_align_of(op):
+    return natural_align(op)
